@@ -40,6 +40,9 @@ var verifDir = func() string {
 	return "/verif"
 }()
 
+// OctKey is the symmetric key of the "oct" signing-key profile.
+const OctKey = "symmetric-signing-key-0123456789abcdef0123456789abcdef"
+
 // ---------------------------------------------------------------- deterministic randomness
 
 // DetReader: block n = SHA-256(seed || n). Outputs are distinct and reproducible; every
@@ -52,6 +55,9 @@ type DetReader struct {
 	Bytes int
 	// Yield, when set, is called before every read (scheduling point for SCHED).
 	Yield func()
+	// Chunk > 0: every Read returns at most Chunk bytes (a legal io.Reader short read, as an HSM- or
+	// pipe-backed random source may give)
+	Chunk int
 }
 
 func (d *DetReader) Read(p []byte) (int, error) {
@@ -59,6 +65,9 @@ func (d *DetReader) Read(p []byte) (int, error) {
 		d.Yield()
 	}
 	d.Reads++
+	if d.Chunk > 0 && len(p) > d.Chunk {
+		p = p[:d.Chunk]
+	}
 	d.Bytes += len(p)
 	for i := range p {
 		if len(d.buf) == 0 {
@@ -364,8 +373,14 @@ func NewWorld(p Profile) *World {
 	if idk == "" {
 		idk = "ec256a"
 	}
-	w.IDKey = loadKey(idk)
-	var signKey interface{} = w.IDKey
+	var signKey interface{}
+	if idk == "oct" {
+		// a symmetric JSON Web Key as the "signing key": nothing may be minted or accepted with it (C06)
+		signKey = &jose.JSONWebKey{Key: []byte(OctKey), Algorithm: "HS256", KeyID: "kid-oct", Use: "sig"}
+	} else {
+		w.IDKey = loadKey(idk)
+		signKey = w.IDKey
+	}
 	alg := p.IDAlg
 	if alg == "" {
 		switch idk {
@@ -375,7 +390,7 @@ func NewWorld(p Profile) *World {
 			alg = "ES512"
 		}
 	}
-	if alg != "" {
+	if alg != "" && idk != "oct" {
 		signKey = &jose.JSONWebKey{Key: w.IDKey, Algorithm: alg, KeyID: "kid-" + idk, Use: "sig"}
 	}
 	keyGetter := func(context.Context) (interface{}, error) { return signKey, nil }
